@@ -30,6 +30,7 @@ import (
 	"regexp"
 	"runtime"
 	"runtime/debug"
+	"runtime/pprof"
 	"sort"
 	"strconv"
 	"strings"
@@ -109,6 +110,7 @@ type worker struct {
 	cpu0          uint64
 	udpSrv        any
 	ssServerUnp   zerocopy.ServerUnpacker
+	ssPacker      zerocopy.ServerPacker
 	isSeed        bool
 }
 
@@ -233,7 +235,7 @@ func (w *worker) runCase(seq uint64, in []byte, seed bool) {
 }
 
 func workerSetup() {
-	runtime.GOMAXPROCS(2)
+	runtime.GOMAXPROCS(1)
 	debug.SetGCPercent(400)
 	vsched.SetClock(nowUnix * 1e9)
 	vcrand.Deterministic = true
@@ -247,6 +249,11 @@ func workerMain() {
 		fatalf("bad --c06worker %q", *fWorker)
 	}
 	workerSetup()
+	if pf := os.Getenv("C06_PROF"); pf != "" {
+		f, _ := os.Create(pf)
+		pprof.StartCPUProfile(f)
+		defer pprof.StopCPUProfile()
+	}
 	tier := flag.Lookup("tier").Value.String()
 	groups := buildGroups(tier == "thorough")
 	w := &worker{env: newEnv(*fTmp), viols: map[string]*violRec{}, out: bufio.NewWriterSize(os.Stdout, 1<<16)}
@@ -345,6 +352,7 @@ groups:
 	_ = capped
 	fmt.Fprintln(w.out, `{"t":"end"}`)
 	w.out.Flush()
+	pprof.StopCPUProfile()
 	os.Exit(0)
 }
 
